@@ -103,6 +103,10 @@ func main() {
 		dumpFieldWrites(P)
 		return
 	}
+	if *dump == "panicguards" {
+		dumpPanicGuards(P)
+		return
+	}
 	if *dump == "failureguards" {
 		dumpFailureGuards(P)
 		return
